@@ -377,6 +377,15 @@ namespace sim
                const bool moved = ( e.pos != fr.pos ) || ( e.byte != fr.byte ) || ( e.line != fr.line ) || ( e.col != fr.col );
                const std::string hn = head_name( fr.rule );
 
+               if( fr.cls == RC::W_CHECK_BYTES && !fr.delegating && !on_sub && fr.p0 >= 0 ) {
+                  // check_bytes< N >: success only with at most N bytes consumed; its own error only beyond N
+                  if( e.kind == Ev::EXIT && result && e.pos > fr.pos + static_cast< std::uint32_t >( fr.p0 ) ) {
+                     cx.viol( "C18.bytes", "check-bytes-passed", i, short_name( fr.rule ) + " succeeded after consuming " + std::to_string( e.pos - fr.pos ) + " bytes, limit " + std::to_string( fr.p0 ) );
+                  }
+                  if( e.kind == Ev::EXC && e.x < r.excs.size() && r.excs[ e.x ].message == "maximum allowed rule consumption exceeded" && fr.closings == 1 && h[ fr.closing_idx ].pos <= fr.pos + static_cast< std::uint32_t >( fr.p0 ) && !fr.child_exc ) {
+                     cx.viol( "C18.bytes", "check-bytes-early", i, short_name( fr.rule ) + " reported excess consumption after " + std::to_string( h[ fr.closing_idx ].pos - fr.pos ) + " bytes, limit " + std::to_string( fr.p0 ) );
+                  }
+               }
                if( e.kind == Ev::EXIT ) {
                   // ---------------- C02
                   if( !result && ( fr.flags & F_REQUIRED ) ) {
@@ -595,6 +604,18 @@ namespace sim
                   cx.viol( "C08.balance", head_name( e.rule ), i, std::string( ev_name( e.kind ) ) + " for " + short_name( e.rule ) + " while the innermost open rule is " + ( top ? short_name( top->rule ) : std::string( "none" ) ) );
                   break;
                }
+               if( e.kind == Ev::START && top->cls == RC::W_LIMIT_DEPTH && !on_sub ) {
+                  // the guarded rule runs: it must be within the configured number of guarded levels
+                  std::uint32_t k = 0;
+                  for( const Frame& fr : st ) {
+                     if( fr.cls == RC::W_LIMIT_DEPTH && !fr.delegating ) {
+                        ++k;
+                     }
+                  }
+                  if( top->p0 >= 0 && k > static_cast< std::uint32_t >( top->p0 ) ) {
+                     cx.viol( "C18.depth", "limit-not-enforced", i, short_name( e.rule ) + " runs at guarded nesting level " + std::to_string( k ) + " although the limit is " + std::to_string( top->p0 ) );
+                  }
+               }
                if( e.kind == Ev::START ) {
                   ++top->starts;
                   if( top->children != 0 ) {
@@ -677,6 +698,17 @@ namespace sim
 
             case Ev::RAISE: {
                ++f.natural_raise;
+               if( top != nullptr && top->cls == RC::W_LIMIT_DEPTH && !on_sub && std::string( rule_name( e.rule ) ).find( "limit_depth" ) != std::string::npos ) {
+                  std::uint32_t k = 0;
+                  for( const Frame& fr : st ) {
+                     if( fr.cls == RC::W_LIMIT_DEPTH && !fr.delegating ) {
+                        ++k;
+                     }
+                  }
+                  if( top->p0 >= 0 && k <= static_cast< std::uint32_t >( top->p0 ) ) {
+                     cx.viol( "C18.depth", "limit-too-early", i, "nesting depth error raised at guarded level " + std::to_string( k ) + " although the limit is " + std::to_string( top->p0 ) );
+                  }
+               }
                if( top != nullptr ) {
                   top->raise_pending = true;
                   top->raise_idx = i;
